@@ -712,6 +712,203 @@ impl Check for C17Many {
     }
 }
 
+/// Positions and names far from the origin: values behind a line of 250 to 200 000 bytes
+/// (blanks, small values, one long string, multi-byte text) or behind 250 to 140 000 line feeds,
+/// and an input file whose path is 250 to 4000 bytes long. A counter that is narrower than the
+/// input (8, 15, 16 bits), a name cut at a "maximum", a buffer-sized special case only show here.
+#[derive(Clone, Debug, Serialize, Deserialize)]
+pub struct CaseFar {
+    /// 0 blanks, 1 small values, 2 one long ASCII string, 3 line feeds, 4 one string of 2- and 3-byte characters
+    pub prefix: u8,
+    pub len: usize,
+    pub tail: Vec<String>,
+    pub seps: Vec<u8>,
+    /// 0 = standard input; otherwise the input is a file whose path has about this many bytes
+    pub path_len: usize,
+}
+
+pub struct C17Far;
+impl Check for C17Far {
+    type Case = CaseFar;
+    fn name(&self) -> &'static str {
+        "C17.far_positions"
+    }
+    fn cases(&self, tier: Tier) -> u64 {
+        tier.pick(480, 12_000)
+    }
+    fn strategy(&self, _t: Tier) -> BoxedStrategy<CaseFar> {
+        let len = prop_oneof![
+            6 => prop::sample::select(vec![254usize, 255, 256, 257, 4095, 4096, 4097, 8191, 8192, 8193, 32766, 32767, 32768, 32769, 65533, 65534, 65535, 65536, 65537, 65538, 70000, 131071, 131072, 131073]),
+            2 => 1usize..200_000,
+        ];
+        let tail = vec(prop::sample::select(vec!["7", "\"ab\"", "[1,\n2]", "{\"a\":\n 1}", "true", "null", "-0.5", "\"\u{e9}\u{65e5}\"", "[]", "12"]).prop_map(|s| s.to_string()), 1..5);
+        let path_len = prop_oneof![3 => Just(0usize), 1 => prop::sample::select(vec![250usize, 254, 255, 256, 257, 300, 511, 512, 513, 1023, 1024, 1025, 2000, 3900])];
+        (0u8..5, len, tail, vec(0u8..4, 6), path_len).prop_map(|(prefix, len, tail, seps, path_len)| CaseFar { prefix, len, tail, seps, path_len }).boxed()
+    }
+    fn check(&self, c: &CaseFar) -> CaseResult {
+        // ---- the input and where every value's text lies
+        let mut bytes: Vec<u8> = Vec::new();
+        let mut spans: Vec<(usize, usize)> = Vec::new();
+        let len = if c.prefix == 1 { c.len.min(70_000) } else if c.prefix == 3 { c.len.min(140_000) } else { c.len };
+        match c.prefix {
+            0 => bytes.extend(std::iter::repeat(b' ').take(len)),
+            1 => {
+                for _ in 0..len / 2 {
+                    let s = bytes.len();
+                    bytes.push(b'1');
+                    spans.push((s, s + 1));
+                    bytes.push(b' ');
+                }
+            }
+            2 => {
+                bytes.push(b'"');
+                bytes.extend(std::iter::repeat(b'x').take(len));
+                bytes.push(b'"');
+                spans.push((0, bytes.len()));
+                bytes.push(b' ');
+            }
+            3 => bytes.extend(std::iter::repeat(b'\n').take(len)),
+            _ => {
+                bytes.push(b'"');
+                while bytes.len() < len {
+                    bytes.extend_from_slice(if bytes.len() % 5 < 2 { "\u{e9}".as_bytes() } else { "\u{65e5}".as_bytes() });
+                }
+                bytes.push(b'"');
+                spans.push((0, bytes.len()));
+                bytes.push(b' ');
+            }
+        }
+        for (i, t) in c.tail.iter().enumerate() {
+            let s = bytes.len();
+            bytes.extend_from_slice(t.as_bytes());
+            spans.push((s, bytes.len()));
+            bytes.extend_from_slice(match c.seps.get(i).copied().unwrap_or(0) {
+                0 => b" ",
+                1 => b"\n",
+                2 => b" \t ",
+                _ => b"\r\n",
+            });
+        }
+        let fail = |m: String| CaseResult::Fail(format!("{} [prefix kind {} of {} bytes, then {:?}]", m, c.prefix, len, c.tail));
+        let mut args = sv(&["--select=&index=i"]);
+        args.extend(sv(POS_ARGS));
+        let mut dir_to_remove = None;
+        let mut path_used: Option<String> = None;
+        let out = if c.path_len == 0 {
+            run(&args, &bytes)
+        } else {
+            // a deep directory: every component is short, the whole path is long
+            let base = tmp_dir().join(format!("c17far-{}", SEQ.fetch_add(1, Ordering::Relaxed)));
+            let mut p = base.clone();
+            let comp = "d".repeat(100);
+            while p.as_os_str().len() + 9 + comp.len() < c.path_len {
+                p = p.join(&comp);
+            }
+            let rest = c.path_len.saturating_sub(p.as_os_str().len() + 1 + 7).clamp(1, 200);
+            let file = p.join(format!("{}-a.json", "f".repeat(rest)));
+            let twin = p.join(format!("{}-b.json", "f".repeat(rest)));
+            if std::fs::create_dir_all(&p).is_err() || std::fs::write(&file, &bytes).is_err() || std::fs::write(&twin, b"0").is_err() {
+                let _ = std::fs::remove_dir_all(&base);
+                return CaseResult::Discard("cannot create the deep directory".into());
+            }
+            dir_to_remove = Some(base);
+            let (fs, ts) = (file.to_str().unwrap().to_string(), twin.to_str().unwrap().to_string());
+            let mut a = args.clone();
+            a.push("--select=&file-name=f".into());
+            a.push(fs.clone());
+            a.push(ts.clone());
+            path_used = Some(fs);
+            let o = run(&a, b"");
+            // the twin's only row names the twin, which differs from the first path in one late byte
+            let last = o.stdout.split(|b| *b == b'\n').filter(|l| !l.is_empty()).last().map(|l| l.to_vec()).unwrap_or_default();
+            match parse_one(&last) {
+                Ok(r) if matches!(r.get("f"), Some(RVal::Str(s)) if *s == ts) => {}
+                _ => {
+                    if let Some(d) = &dir_to_remove {
+                        let _ = std::fs::remove_dir_all(d);
+                    }
+                    return fail(format!("the row of the second file does not carry its path of {} bytes as &file-name: {}", ts.len(), esc_trunc(&last, 200)));
+                }
+            }
+            let mut o = o;
+            // drop the twin's row
+            let keep = o.stdout.len() - last.len() - 1;
+            o.stdout.truncate(keep);
+            o
+        };
+        if let Some(d) = &dir_to_remove {
+            let _ = std::fs::remove_dir_all(d);
+        }
+        if !out.res.is_ok() {
+            return fail(format!("run failed: {}", out.res.short()));
+        }
+        let mut line_starts = vec![0usize];
+        for (i, b) in bytes.iter().enumerate() {
+            if *b == b'\n' {
+                line_starts.push(i + 1);
+            }
+        }
+        let to_off = |line: i128, col: i128| -> Option<usize> {
+            if line < 1 || col < 1 || line as usize > line_starts.len() {
+                return None;
+            }
+            let ls = line_starts[line as usize - 1];
+            let le = line_starts.get(line as usize).copied().unwrap_or(bytes.len() + 1);
+            let off = ls + (col as usize - 1);
+            if off > le.min(bytes.len()) {
+                return None;
+            }
+            Some(off)
+        };
+        // rows are one-line JSON without inner line feeds here (no value is printed)
+        let rows: Vec<&[u8]> = out.stdout.split(|b| *b == b'\n').filter(|l| !l.is_empty()).collect();
+        if rows.len() != spans.len() {
+            return fail(format!("{} rows for {} values", rows.len(), spans.len()));
+        }
+        let mut prev_end: Option<usize> = None;
+        for (n, l) in rows.iter().enumerate() {
+            let row = match parse_one(l) {
+                Ok(r) => r,
+                Err(e) => return fail(format!("row {} is not JSON: {}", n, e)),
+            };
+            if int_member(&row, "i") != Some(n as i128) {
+                return fail(format!("&index of value {} is {:?}", n, row.get("i").map(|x| x.to_json())));
+            }
+            if let Some(p) = &path_used {
+                if !matches!(row.get("f"), Some(RVal::Str(s)) if s == p) {
+                    return fail(format!("&file-name is not the path of {} bytes that was given: {:?}", p.len(), row.get("f").map(|x| esc_trunc(x.to_json().as_bytes(), 80))));
+                }
+            }
+            let (Some(sl), Some(sc), Some(el), Some(ec)) = (int_member(&row, "sl"), int_member(&row, "sc"), int_member(&row, "el"), int_member(&row, "ec")) else {
+                return fail(format!("row {} lacks a position", n));
+            };
+            let (Some(s_off), Some(e_off)) = (to_off(sl, sc), to_off(el, ec)) else {
+                return fail(format!("value {}: position ({},{})-({},{}) does not exist in the input (lines are counted by line feeds, columns in bytes)", n, sl, sc, el, ec));
+            };
+            let (s, e) = spans[n];
+            if !(s_off <= s && e <= e_off) {
+                return fail(format!("value {}: range ({},{})-({},{}) = bytes {}..{} does not contain the value's text at bytes {}..{}", n, sl, sc, el, ec, s_off, e_off, s, e));
+            }
+            if let Some(pe) = prev_end {
+                if pe != s_off {
+                    return fail(format!("value {}: range starts at byte {} but the previous range ended at byte {}", n, s_off, pe));
+                }
+            }
+            prev_end = Some(e_off);
+        }
+        CaseResult::Pass(
+            Info::new(len >= 250)
+                .class(["blanks", "small_values", "long_string", "line_feeds", "multi_byte_string"][c.prefix as usize])
+                .class_if(len > 65535, "beyond_65535")
+                .class_if(len > 32767 && len <= 65535, "32768_to_65535")
+                .class_if(c.path_len > 255, "path_longer_than_255_bytes")
+                .class_if(c.path_len > 1024, "path_longer_than_1024_bytes")
+                .weight(2)
+                .obs(json!({"prefix": c.prefix, "len": len, "rows": rows.len(), "path_len": path_used.as_ref().map(|p| p.len())})),
+        )
+    }
+}
+
 pub fn run_all(ctx: &mut Ctx) {
     ctx.rule = "0..10 value texts (ASCII or with raw multi-byte characters) (independent spellings incl. inner line breaks) with whitespace / touching / garbage gaps x read-chunk schedules (1-byte, random sizes, with Interrupted) x stdin vs file x partitions of the bytes into 1..4 files at arbitrary offsets (also inside a value) x --only-objects-and-arrays. Oracle: identical stdout for every delivery; joint multi-file run = concatenation of single-file runs; &index = 0,1,2.. over the run, &index-in-file restarts per file, &file-name = the path; (line,col) pairs map through the line-feed positions to a byte range that contains the value's text, contiguous with the previous range when nothing lies between. non-trivial = >= 2 files that each yield a row, or >= 3 processed values with >= 2 rows beyond line 1".into();
     ctx.assumptions = vec!["columns are byte columns (the property says byte range); checked on ASCII and on raw multi-byte text".into()];
@@ -720,6 +917,8 @@ pub fn run_all(ctx: &mut Ctx) {
     C17Wide.run(ctx);
     ctx.rule.push_str(". C17.files_stateful: 0..11 values from a small set (duplicates and ties) spread over 2..4 files between values (also empty files) x 10 stateful pipelines (--unique, --sort-by, --group-by, --merge, --skip/--take, &index): same result as the values on standard input");
     C17Files.run(ctx);
+    ctx.rule.push_str(". C17.far_positions: 1..4 values behind a first line of 250..200000 bytes (blanks, small values, one long string, multi-byte text; lengths around 2^8, 2^12, 2^13, 2^15, 2^16, 2^17) or behind that many line feeds, read from standard input or from a file whose path is 250..3900 bytes long (components of 100 bytes) next to a twin that differs in one late byte: &index exact, positions map to byte ranges that contain the value and are contiguous, &file-name is the path given; non-trivial = prefix of >= 250 bytes");
+    C17Far.run(ctx);
     ctx.rule.push_str(". C17.many_files: 300 one-value files in one run while the process may hold at most 96 descriptors: rows, &index and &index-in-file exact");
     {
         let c = CaseMany { files: 300 };
@@ -730,5 +929,5 @@ pub fn run_all(ctx: &mut Ctx) {
 }
 
 pub fn checks() -> Vec<Box<dyn DynCheck>> {
-    vec![Box::new(C17Delivery), Box::new(C17Wide), Box::new(C17Files), Box::new(C17Many)]
+    vec![Box::new(C17Delivery), Box::new(C17Wide), Box::new(C17Files), Box::new(C17Many), Box::new(C17Far)]
 }
